@@ -228,6 +228,9 @@ func (r *Transport) writeLoop() {
 					if reconnectErr := r.reconnect(tr); reconnectErr != nil {
 						r.mu.Unlock()
 						writeOrDone(r.ctx, writeRes{err: fmt.Errorf("reconnect cause[%v]: %w", err, reconnectErr)}, r.writeResCh[data.id])
+						// the redial budget is exhausted and this loop ends: cancel the transport so that
+						// queued and later Writes (and Reads) fail instead of waiting forever
+						r.cancel()
 						return
 					}
 					r.mu.Unlock()
